@@ -37,6 +37,21 @@ class _Win(Entry):
     shared_w = False             # one weight row shared by the tasks (MSE sample_weight)
     zero_weights = True          # weight tensors that are all zero / partly zero are generated
     extra_opts = [{}]
+    base_model = None            # Coq model of the class as it is; "<base_model>_cap" = repaired merge_state
+    _model = None
+
+    @property
+    def model(self):
+        """the Coq model mirroring the tree under test: merge_state keeps max_num_updates (current code) or sets it
+        to the pooled capacity (fixes/window-merge-capacity.patch), decided by the witness merge_capacity_variant"""
+        if self._model is None:
+            self.merge_variant = merge_capacity_variant(self)
+            self._model = self.base_model + ("_cap" if self.merge_variant == "cap" else "")
+        return self._model
+
+    @model.setter
+    def model(self, v):
+        self._model = v
 
     # ---- configuration
     def grid_cfgs(self):
@@ -161,8 +176,56 @@ class _Win(Entry):
         raise NotImplementedError("windowed classes have no functional form")
 
 
+def merge_capacity_variant(e):
+    """Which merge_state the tree under test has for the update-granular class of entry `e`, decided by the replay
+    of the known finding C01-window-merged-object-merged-again (window 1; three shards with two updates each;
+    SEQUENTIAL merge A.merge([B]); A.merge([C])):
+      'code'  -- max_num_updates stays 1 and the pooled buffer holds the windows of A and C only
+                 (WindowedMeanSquaredError, shards [1,2],[3,4],[5,6] vs target 0: squared errors [4, 36]),
+      'cap'   -- max_num_updates is the pooled capacity 3 and the buffer holds all three windows ([4, 16, 36])
+                 (fixes/window-merge-capacity.patch),
+      'mixed' -- anything else (no model variant: the model of the current code is used and the check reports)."""
+    import random
+    rng = random.Random(20260101)
+    cfg = {"num_tasks": 1, "max_num_updates": 1, "enable_lifetime": True, **e.extra_opts[0]}
+    try:
+        if e.name == "WindowedMeanSquaredError":
+            shards = []
+            for vals in ([1, 2], [3, 4], [5, 6]):
+                m = e.cls(max_num_updates=1, enable_lifetime=True)
+                for v in vals:
+                    m.update(torch.tensor([float(v)]), torch.tensor([0.0]))
+                shards.append(m)
+        else:
+            shards = []
+            for _ in range(3):
+                m = e.make(cfg)
+                for _ in range(2):
+                    e.update(m, cfg, e.gen_batch(rng, cfg, 2))
+                shards.append(m)
+        a = shards[0]
+        a.merge_state([shards[1]])
+        a.merge_state([shards[2]])
+        cap, tot = int(a.max_num_updates), int(a.total_updates)
+        width = [int(getattr(a, n).shape[-1]) for n in a.state_dict() if n.startswith("windowed")]
+        if e.name == "WindowedMeanSquaredError":
+            sse = [float(x) for x in a.windowed_sum_squared_error.reshape(-1)]
+            if cap == 1 and sse[:2] == [4.0, 36.0] and not any(sse[2:]):
+                return "code"
+            if cap == 3 and sse == [4.0, 16.0, 36.0]:
+                return "cap"
+            return "mixed"
+        if tot == 6 and cap == 1 and all(w == 2 for w in width):
+            return "code"
+        if tot == 6 and cap == 3 and all(w == 3 for w in width):
+            return "cap"
+    except Exception:
+        pass
+    return "mixed"
+
+
 class WCTR(_Win):
-    name, cls, model, ref_cls = "WindowedClickThroughRate", M.WindowedClickThroughRate, "wctr", M.ClickThroughRate
+    name, cls, base_model, ref_cls = "WindowedClickThroughRate", M.WindowedClickThroughRate, "wctr", M.ClickThroughRate
     has_y = False
     xdtype = torch.float32
 
@@ -173,7 +236,7 @@ class WCTR(_Win):
 
 
 class WWC(_Win):
-    name, cls, model, ref_cls = "WindowedWeightedCalibration", M.WindowedWeightedCalibration, "wcal", M.WeightedCalibration
+    name, cls, base_model, ref_cls = "WindowedWeightedCalibration", M.WindowedWeightedCalibration, "wcal", M.WeightedCalibration
 
     def gen_x(self, rng, n):
         return grid(rng, n, 8)
@@ -185,7 +248,7 @@ class WWC(_Win):
 
 
 class WMSE(_Win):
-    name, cls, model, ref_cls = "WindowedMeanSquaredError", M.WindowedMeanSquaredError, "wmse", M.MeanSquaredError
+    name, cls, base_model, ref_cls = "WindowedMeanSquaredError", M.WindowedMeanSquaredError, "wmse", M.MeanSquaredError
     scalar_weight = False
     none_weight = True
     shared_w = True
@@ -211,7 +274,7 @@ class WMSE(_Win):
 
 
 class WNE(_Win):
-    name, cls, model, ref_cls = ("WindowedBinaryNormalizedEntropy", M.WindowedBinaryNormalizedEntropy, "wne",
+    name, cls, base_model, ref_cls = ("WindowedBinaryNormalizedEntropy", M.WindowedBinaryNormalizedEntropy, "wne",
                                  M.BinaryNormalizedEntropy)
     scalar_weight = False
     none_weight = True
